@@ -1,6 +1,7 @@
 package jsonrpc2
 
 import (
+	"bytes"
 	"encoding/json"
 	"io"
 
@@ -34,9 +35,9 @@ type jsonCodec struct {
 	rwc        io.ReadWriteCloser
 	remoteAddr string
 
-	// buffered holds what the previous ReadMessage's decoder read past the end
-	// of its message.
-	buffered io.Reader
+	// buffered holds what earlier ReadMessage calls read past the end of their
+	// message and that has not been consumed yet.
+	buffered *bytes.Reader
 }
 
 func (codec *jsonCodec) RemoteAddr() string {
@@ -49,12 +50,20 @@ func (codec *jsonCodec) ReadMessage() (*Message, error) {
 	// in one read), so whatever it has left is carried over to the next call
 	// rather than dropped with the decoder.
 	var r io.Reader = codec.rwc
-	if codec.buffered != nil {
+	if codec.buffered != nil && codec.buffered.Len() > 0 {
 		r = io.MultiReader(codec.buffered, codec.rwc)
 	}
 	dec := json.NewDecoder(r)
 	err := dec.Decode(&msg)
-	codec.buffered = dec.Buffered()
+
+	// What this decoder has left comes first, followed by whatever it did not
+	// get to of the earlier read-ahead.
+	var rest bytes.Buffer
+	rest.ReadFrom(dec.Buffered())
+	if codec.buffered != nil {
+		rest.ReadFrom(codec.buffered)
+	}
+	codec.buffered = bytes.NewReader(rest.Bytes())
 	return &msg, err
 }
 
